@@ -1,6 +1,7 @@
 package runinproc
 
 import (
+	"github.com/FollowTheProcess/spok/file"
 	"fmt"
 	"os"
 	"sort"
@@ -12,6 +13,8 @@ import (
 
 // GraphCase is a dependency graph written as a spokfile plus a request list.
 type GraphCase struct {
+	// Reuse: the repetitions run the same loaded SpokFile again instead of loading the text anew
+	Reuse bool `json:"reuse,omitempty"`
 	N       int      `json:"n"`
 	Edges   [][2]int `json:"edges"`              // [i,j]: task i depends on task j
 	Dup     []int    `json:"dup,omitempty"`      // tasks defined a second time
@@ -28,7 +31,16 @@ type GraphCase struct {
 // Task names: underscores are identifier characters, so names are chosen such that different
 // (dependency, task) pairs concatenate to the same text: "a_a"+"_"+"a" == "a"+"_"+"a_a" and
 // "b_c"+"_"+"d" == "b"+"_"+"c_d".
-var graphNames = []string{"a", "a_a", "d", "b_c", "c_d", "b", "e", "e_f"}
+// The first eight names are chosen so that different (dependency, task) pairs concatenate alike; the
+// further ones (for the occasional large graph) sort by index, so that an order by name is the reverse
+// of the run order of an acyclic graph whose tasks depend on tasks of higher index.
+var graphNames = func() []string {
+	names := []string{"a", "a_a", "d", "b_c", "c_d", "b", "e", "e_f"}
+	for i := 8; i < 40; i++ {
+		names = append(names, "t"+string(rune('a'+(i-8)/2%26))+string(rune('a'+i%26))+"x")
+	}
+	return names
+}()
 
 const undefinedName = "zz"
 
@@ -174,8 +186,13 @@ func execGraph(s *ev.Shard, root string, c GraphCase) *rp.Fail {
 	if reps < 1 {
 		reps = 1
 	}
+	var kept *file.SpokFile
 	for rep := 0; rep < reps; rep++ {
-		rr := doRun(root, src, Step{Op: "run", Tasks: c.Request, Fail: fail})
+		st := Step{Op: "run", Tasks: c.Request, Fail: fail}
+		if c.Reuse {
+			st.keep = &kept
+		}
+		rr := doRun(root, src, st)
 		if rr.err != nil && strings.HasPrefix(rr.err.Error(), "harness: generated spokfile does not parse") {
 			return &rp.Fail{Sig: "harness", Msg: rr.err.Error()}
 		}
